@@ -26,7 +26,7 @@ for pid in ids:
 na = [{"property_id": pid, "reason": NOT_APPLICABLE.get(pid, "check not built yet in this round; see DESIGN.md §4 for the planned monitor")} for pid in ids if pid not in PROPS]
 manifest = {
     "version": 1,
-    "setup_cmd": "cd /verif/harness && CARGO_NET_OFFLINE=true cargo build --release --offline && cd /verif/miri && (CARGO_NET_OFFLINE=true CARGO_TARGET_DIR=/verif/target/miri MIRIFLAGS=-Zmiri-disable-isolation cargo +nightly miri run -q -- noop || true)",
+    "setup_cmd": "cd /verif/harness && CARGO_NET_OFFLINE=true cargo build --release --offline && cd /verif/miri && (CARGO_NET_OFFLINE=true CARGO_TARGET_DIR=/verif/target/miri MIRIFLAGS=-Zmiri-disable-isolation cargo +nightly miri run -q -- noop || true) && (cd /verif/harness && CARGO_NET_OFFLINE=true CARGO_TARGET_DIR=/verif/target/tsan RUSTFLAGS=-Zsanitizer=thread cargo +nightly build -Zbuild-std --target x86_64-unknown-linux-gnu --release --offline || true)",
     "hooks": {
         "guard": "verif",
         "enable": "cargo feature `verif` of crate simplesl (the harness depends on simplesl with features=[\"verif\"]); e.g. cargo build --features verif",
